@@ -123,6 +123,23 @@ func runApiStream(o Opts, prop, oracle string, mix apiMix) error {
 					w = 1 // SetAddress early in every history: the configuration, not the controller's new address, keeps routing
 				}
 				id := ids[r.Intn(2)]
+				if k == 3 {
+					// the caller edits the map DeviceList returned (removes, re-addresses and adds controllers): the
+					// client's own configuration - and so every later route - is unaffected
+					for _, cl := range []*clientState{a, b} {
+						m := cl.u.DeviceList()
+						for key, d := range m {
+							if r.Intn(2) == 0 {
+								delete(m, key)
+							} else {
+								d.Address = types.ControllerAddr{AddrPort: netip.MustParseAddrPort("10.99.99.99:54321")}
+								d.Protocol = "tcp"
+								m[key] = d
+							}
+						}
+						m[ids[0]] = uhppote.Device{DeviceID: ids[0], Address: types.ControllerAddr{AddrPort: netip.MustParseAddrPort("10.98.98.98:12345")}, Protocol: "tcp"}
+					}
+				}
 				if k%2 == 0 {
 					one(a, cfgA, w, id, false, "history/client-a")
 				} else {
